@@ -352,6 +352,10 @@ class CallMixin:
                 if not self.feasible_with(s3, c):
                     continue
                 s3.assume(c)
+            xpost = S.SpecState(self, env, s3.heap, old_heap)
+            for xexc, xl, xf in k.exc_ensures_:
+                if self.exc_subclass(exc, xexc):
+                    s3.assume(xf(xpost))
             out.append(("raise", s3, exc_val(exc)))
         # normal outcome
         s4 = s2
@@ -476,6 +480,10 @@ class CallMixin:
         if name == "datetime.timestamp":
             # A-FLOATTS: strictly monotone in the instant (distinct microsecond instants map to distinct doubles)
             return self.val(st, Val(FLOAT, z3.ToReal(V.DT.inst(recv.t)) / 1000000))
+        if name == "datetime.replace" and not args and set(kwargs) == {"tzinfo"} and kwargs["tzinfo"].ty.kind == "none":
+            # naive wall-clock datetime: modelled as the instant that shows the same clock reading at offset 0, so that differences and
+            # comparisons of two such values are differences/comparisons of local clock readings (CPython semantics for naive datetimes)
+            return self.val(st, Val(DATETIME, V.DT.mkdt(self.local_us(recv.t), z3.IntVal(0)), aux="naive"))
         if name == "datetime.astimezone":
             return self.val(st, Val(DATETIME, V.DT.mkdt(V.DT.inst(recv.t), z3.IntVal(0))))
         if name.startswith("ext.Logger."):
@@ -736,6 +744,9 @@ class CallMixin:
             elif kind == "raise":
                 name = v.aux
                 prestate = S.SpecState(self, env, old_heap, old_heap)
+                for xexc, xl, xf in k.exc_ensures_:
+                    if self.exc_subclass(name, xexc):
+                        self.vc(s, xf(S.SpecState(self, env, s.heap, old_heap)), "raises", f"{name}.{xl}", fi.node, fr)
                 if any(self.exc_subclass(name, nv) for nv in k.never_):
                     self.vc(s, False, "noraise", name, fi.node, fr)
                     continue
